@@ -41,7 +41,9 @@ REQUIRED = ["CifModel.C12_clean", "CifModel.C12_first_report_is_policy_free", "C
             "CifModel.C12_unclosed_triple", "CifModel.C12_overlength_lines", "CifModel.C12_overlength_sep",
             "CifModel.C12_overlength_text", "CifModel.C12_overlength_triple", "CifModel.C12_defective_unit",
             "CifModel.C12_defective_unit_multiline", "CifModel.C12_disallowed_char", "CifModel.C12_invalid_char_trail",
-            "CifModel.C12_invalid_char_lead", "CifModel.C12_die_is_first"]
+            "CifModel.C12_invalid_char_lead", "CifModel.C12_die_is_first",
+            "CifModel.C12_reserved_word_scan", "CifModel.C12_reserved_word_nextTok", "CifModel.C12_reserved_word",
+            "CifModel.C12_reserved_word_value_position", "CifModel.C12_reserved_word_instance"]
 GEN = ["ErrCodes", "CharClass", "ParseConsts"]
 FAMILIES = ["defect"]
 TRUSTED_BASE = [
